@@ -48,7 +48,7 @@ Inductive case :=
         (a_creates b_creates : list str) (a_sql b_sql : list (list tok))
         (errors : list bool) (tables : list str)
 | CEvo (dc : decl) (keep : list str) (rows : list (list Z)) (ops : list evo_op) (steps : list evostep)
-| CIdem (a b : decl) (ops : list (bool * bool * bool))         (* create?, class a?, if-flag *)
+| CIdem (a b : decl) (ops : list (nat * bool * bool))          (* 0 create / 1 drop / 2 raw DROP TABLE, class a?, if-flag *)
         (steps : list (bool * list str * list str)).
 
 (* ---------- equalities *)
@@ -176,7 +176,8 @@ Definition step_view (keep : list str) (s : evo_state) (err : bool) : evostep :=
          es_indexes := map fst (filter (fun ix => str_eqb (snd ix) tn) (db_indexes (e_db s)));
          es_select_ok := forallb (fun c => mem_str c (t_cols t)) (class_cols dc) |}
   | None =>
-      {| es_error := err; es_class := []; es_table := []; es_rows := []; es_indexes := []; es_select_ok := false |}
+      {| es_error := err; es_class := map (fun c => (final_name c, dbname_of (d_style dc) c)) (d_cols dc);
+         es_table := []; es_rows := []; es_indexes := []; es_select_ok := false |}
   end.
 
 Definition evostep_eqb (a b : evostep) : bool :=
@@ -201,13 +202,17 @@ Definition evo_init (dc : decl) (rows : list (list Z)) : evo_state :=
                 db_indexes := db_indexes db |} |}.
 
 (* ---------- idem cases *)
-Fixpoint idem_views (a b : decl) (db : dbstate) (ops : list (bool * bool * bool))
+Fixpoint idem_views (a b : decl) (db : dbstate) (ops : list (nat * bool * bool))
   : list (bool * list str * list str) :=
   match ops with
   | [] => []
-  | (cr, who, flag) :: r =>
+  | (op, who, flag) :: r =>
       let dc := if who : bool then a else b in
-      let '(db', e) := if cr : bool then create_table_op dc flag db else drop_table_op dc flag db in
+      let '(db', e) := match op with
+                       | O => create_table_op dc flag db
+                       | S O => drop_table_op dc flag db
+                       | _ => eng_drop db (table_of dc)      (* out of band: DROP TABLE of the class's table only *)
+                       end in
       (e, map t_name (db_tables db'), map fst (db_indexes db')) :: idem_views a b db' r
   end.
 
